@@ -341,6 +341,34 @@ def two_ways_case(args):
     return ("file+splicer_code", lang, name1 + "|" + name2, "one", err)
 
 
+def same_block_case(args):
+    """file + splicer_code naming the SAME block: the description (splicer_code) is merged over the files, complete."""
+    workdir, ydict, lang, name, base_blocks = args
+    y = json.loads(json.dumps(ydict))
+    fn = "user_splicer" + EXT[lang]
+    files = {fn: "%s splicer begin %s\nfrom_file();\nfile_line_two();\n%s splicer end %s\n" % (COMMENT[lang], name, COMMENT[lang], name)}
+    y["splicer"] = {lang: [fn]}
+    y["splicer_code"] = {lang: nested(name, ["from_yaml();"])}
+    out, r = gen(workdir, y, files, [])
+    err = None
+    if r.status != "ok":
+        err = "shroud failed: %s %s" % (r.exc, r.msg)
+    else:
+        got = tree_blocks(out)
+        hit = 0
+        for k in sorted(got):
+            if k[0] == lang and k[3] == name:
+                hit += 1
+                if norm(got[k]) != ["from_yaml();"]:
+                    err = "block %s is named by a splicer file and by splicer_code: it holds %r, the splicer_code body is ['from_yaml();']" % (name, got[k][:3])
+            elif k in base_blocks and k[0] == lang and squash(got[k]) != squash(base_blocks[k]):
+                err = "unrelated block %s in %s changed" % (k[3], k[1])
+        if hit == 0 and not err:
+            err = "block %s not found" % name
+    shutil.rmtree(workdir, ignore_errors=True)
+    return ("file+splicer_code same block", lang, name, "one", err)
+
+
 # ------------------------------------------------------------------ (3) round trip
 def roundtrip_case(args):
     """Generate; then for every generated file F: regenerate with F given back as a splicer
@@ -514,7 +542,14 @@ def run(ctx):
             i += 1
             tjobs.append((os.path.join(basedir, "w%d" % i), ydict, lang, a, b, base_blocks))
     res += isolate.pmap(two_ways_case, tjobs, W)
-    ctx.part("emitter", runs=len(res), bodies=bodies, ways=ways + ["decl", "decl+splicer_code", "file+splicer_code"])
+    sjobs = []
+    for lang in ("c", "f", "py", "lua"):
+        ln = [n for l, n in names if l == lang]
+        for a in (ln[:: max(1, len(ln) // 4)] if quick else ln):
+            i += 1
+            sjobs.append((os.path.join(basedir, "w%d" % i), ydict, lang, a, base_blocks))
+    res += isolate.pmap(same_block_case, sjobs, W)
+    ctx.part("emitter", runs=len(res), bodies=bodies, ways=ways + ["decl", "decl+splicer_code", "file+splicer_code", "file+splicer_code same block"])
     ctx.count(states=len(res), transitions=len(res), validated=len(res))
     ctx.nontrivial_n(len(res))
     for way, lang, name, bodyname, err in res:
@@ -523,6 +558,8 @@ def run(ctx):
             key = "emitter body=%s" % bodyname if bodyname in ("trailing-plus", "tab") and err.startswith("block ") else "emitter way=%s lang=%s name=%s body=%s" % (way, lang, name, bodyname)
             if way == "file+splicer_code":
                 key = "emitter file+splicer_code lang=%s" % lang
+            if way == "file+splicer_code same block":
+                key = "emitter file+splicer_code same block lang=%s" % lang
             ctx.violation(key, err, {"kind": "emit", "way": way, "lang": lang, "name": name, "body": bodyname})
     ctx.sample({"way": "splicer_code", "lang": "f", "name": names[0][1], "body": BODIES["braces"]})
 
